@@ -344,7 +344,7 @@ def plan(tier, seed, workdir):
     import bare_script.runtime as rt
     p = Plan('C16', 'exploration')
     p.encode(L._datetime_new, V.value_round_number, V.value_parse_datetime, V.value_string, rt.evaluate_expression)
-    for fn in ('lemma_carry', 'lemma_loops', 'lemma_unique'):
+    for fn in ('lemma_carry', 'lemma_loops', 'lemma_unique', 'lemma_subtract_rounding'):
         p.add({'kind': 'lemma', 'id': fn, 'module': 'vf.props.c16', 'fn': fn, 'kwargs': {}, 'timeout': 900, 'est': 60}, family='E2 ' + fn)
     p.add({'kind': 'native', 'id': 'tz_roundtrip_native', 'module': 'vf.props.c16', 'fn': 'tz_roundtrip_native', 'kwargs': {}, 'timeout': 600, 'est': 30},
           family='ISO round trip under 8 TZ values (concrete by-product; TZ cannot be a solver variable)')
@@ -366,8 +366,181 @@ def plan(tier, seed, workdir):
                 'millisecond offsets from a 25-element pool up to +-1e12']
     p.stubs = ['calendar.monthrange axiomatised by the Gregorian rule (validated against the C library every run)', 'ValueArgsError message formatting']
     p.outside = ['time-zone behaviour for arbitrary zones (astimezone/mktime consult the C tz database); 8 zones replayed concretely as a by-product',
-                 'float rounding of datetime subtraction beyond the pool (see DESIGN: NRA rounding lemma)', 'years outside 1..9999']
+                 'datetime subtraction beyond |n| <= 2^40 ms and non-integral differences (the rounding lemma covers integral ms differences)', 'years outside 1..9999']
     p.assumptions = ['z3 linear integer arithmetic with constant divisors', 'vf.symint models of Python int arithmetic', 'CPython datetime']
     p.samples = [{'lemma': 'carry', 'statement': 'forall ints: (ms, s, min, h, day, month, year) after the carry chain == floor-div normal form'},
                  {'layout': E1_LAYOUTS[0]}]
     return p
+
+
+# ---------------------------------------------------------------------------------------------------------------------
+# floating-point lemma for datetime subtraction, generated from the real AST (relative-error rounding model)
+
+class _FP:
+    """float expression -> z3 Real with one fresh relative error |d| <= 2^-53 per inexact operation (sound over-approximation of
+    IEEE-754 round-to-nearest for normal results); int() truncates toward zero; ints stay exact"""
+
+    def __init__(self, env, module):
+        import z3
+        self.z3 = z3
+        self.env = env
+        self.module = module
+        self.deltas = []
+        self.depth = 0
+
+    def delta(self):
+        z3 = self.z3
+        d = z3.Real(f'd{len(self.deltas)}')
+        self.deltas.append(d)
+        return d
+
+    def rounded(self, x):
+        return x * (1 + self.delta())
+
+    def ev(self, node):
+        z3 = self.z3
+        if isinstance(node, ast.Constant):
+            return ('int', z3.IntVal(node.value)) if isinstance(node.value, int) else ('flt', z3.RealVal(repr(node.value)))
+        if isinstance(node, ast.Name):
+            return self.env[node.id]
+        if isinstance(node, ast.BinOp):
+            (ka, a), (kb, b) = self.ev(node.left), self.ev(node.right)
+            if isinstance(node.op, ast.Pow) and ka == 'int' and kb == 'int' and z3.is_int_value(a) and z3.is_int_value(b):
+                return ('int', z3.IntVal(a.as_long() ** b.as_long()))
+            if ka == 'int' and kb == 'int' and not isinstance(node.op, ast.Div):
+                op = {ast.Add: lambda x, y: x + y, ast.Sub: lambda x, y: x - y, ast.Mult: lambda x, y: x * y}.get(type(node.op))
+                if op is None:
+                    raise ValueError('int operator')
+                return ('int', op(a, b))
+            ra = z3.ToReal(a) if ka == 'int' else a
+            rb = z3.ToReal(b) if kb == 'int' else b
+            if isinstance(node.op, ast.Mult):
+                exact = (kb == 'int' and z3.is_int_value(b) and b.as_long() == 1) or (ka == 'int' and z3.is_int_value(a) and a.as_long() == 1)
+                return ('flt', ra * rb if exact else self.rounded(ra * rb))
+            if isinstance(node.op, ast.Div):
+                exact = kb == 'int' and z3.is_int_value(b) and b.as_long() == 1
+                return ('flt', ra / rb if exact else self.rounded(ra / rb))
+            if isinstance(node.op, ast.Add):
+                return ('flt', self.rounded(ra + rb))
+            if isinstance(node.op, ast.Sub):
+                return ('flt', self.rounded(ra - rb))
+            raise ValueError('float operator')
+        if isinstance(node, ast.UnaryOp) and isinstance(node.op, ast.USub):
+            k, v = self.ev(node.operand)
+            return (k, -v)
+        if isinstance(node, ast.IfExp):
+            c = self.cond(node.test)
+            (ka, a), (kb, b) = self.ev(node.body), self.ev(node.orelse)
+            ra = z3.ToReal(a) if ka == 'int' else a
+            rb = z3.ToReal(b) if kb == 'int' else b
+            return ('flt', z3.If(c, ra, rb))
+        if isinstance(node, ast.Call):
+            f = node.func
+            if isinstance(f, ast.Name) and f.id == 'int':
+                k, v = self.ev(node.args[0])
+                if k == 'int':
+                    return ('int', v)
+                return ('int', z3.If(v >= 0, z3.ToInt(v), -z3.ToInt(-v)))
+            if isinstance(f, ast.Attribute) and f.attr == 'total_seconds':
+                # timedelta.total_seconds(): exact integer microseconds / 10**6 (one correctly rounded division)
+                k, us = self.ev(f.value)
+                if k != 'td':
+                    raise ValueError('total_seconds of a non-timedelta')
+                return ('flt', self.rounded(z3.ToReal(us) / 1000000))
+            if isinstance(f, ast.Name):
+                target = getattr(self.module, f.id, None)
+                if target is None:
+                    raise ValueError('call of ' + f.id)
+                self.depth += 1
+                if self.depth > 4:
+                    raise ValueError('depth')
+                import inspect
+                import textwrap
+                tree = ast.parse(textwrap.dedent(inspect.getsource(target))).body[0]
+                params = [a.arg for a in tree.args.args]
+                sub = _FP(dict(zip(params, [self.ev(a) for a in node.args])), inspect.getmodule(target))
+                sub.deltas = self.deltas
+                sub.depth = self.depth
+                val = None
+                for st in tree.body:
+                    if isinstance(st, ast.Expr) and isinstance(st.value, ast.Constant):
+                        continue
+                    if isinstance(st, ast.Assign) and isinstance(st.targets[0], ast.Name):
+                        sub.env[st.targets[0].id] = sub.ev(st.value)
+                    elif isinstance(st, ast.Return):
+                        val = sub.ev(st.value)
+                        break
+                    else:
+                        raise ValueError('statement in ' + f.id)
+                self.depth -= 1
+                return val
+        if isinstance(node, ast.BinOp) or True:
+            raise ValueError(f'unsupported float expression node {type(node).__name__}')
+
+    def cond(self, node):
+        z3 = self.z3
+        if isinstance(node, ast.Compare) and len(node.ops) == 1:
+            (ka, a), (kb, b) = self.ev(node.left), self.ev(node.comparators[0])
+            ra = z3.ToReal(a) if ka == 'int' else a
+            rb = z3.ToReal(b) if kb == 'int' else b
+            return {ast.GtE: ra >= rb, ast.Gt: ra > rb, ast.LtE: ra <= rb, ast.Lt: ra < rb}[type(node.ops[0])]
+        raise ValueError('condition')
+
+
+def replay_subtract(n):
+    """(d + n ms) - d on the real evaluator, n and a window of neighbours"""
+    from bare_script import parse_expression, evaluate_expression
+    expr = parse_expression('(dd + nn) - dd')
+    d = datetime.datetime(2024, 3, 10, 1, 30, 15, 123000)
+    lo = max(-10 ** 12, n - 3000)
+    for k in range(lo, lo + 6001):
+        r = evaluate_expression(expr, {'globals': {'dd': d, 'nn': k}})
+        if r != k:
+            return False, {'clause': '(d + n ms) - d must be n', 'n': k, 'result': repr(r), 'solver_candidate': n}
+    return True, {}
+
+
+def lemma_subtract_rounding():
+    import inspect
+    import textwrap
+    import z3
+    import bare_script.runtime as rt
+    import bare_script.value as V
+    tree = ast.parse(textwrap.dedent(inspect.getsource(rt.evaluate_expression)))
+    rets = [n for n in ast.walk(tree) if isinstance(n, ast.Return) and n.value is not None and 'total_seconds' in ast.dump(n.value)]
+    if len(rets) != 1:
+        return {'state': 'skipped', 'why': f'{len(rets)} return statements use total_seconds() (structure changed)'}
+    n = z3.Int('n')
+    fp = _FP({'left_dt': ('dt', None), 'right_dt': ('dt', None)}, rt)
+    # (left_dt - right_dt) is a timedelta of exactly 1000*n microseconds for datetimes that are n ms apart
+    orig_ev = fp.ev
+
+    def ev(node):
+        if isinstance(node, ast.BinOp) and isinstance(node.op, ast.Sub) and isinstance(node.left, ast.Name) and node.left.id == 'left_dt':
+            return ('td', n * 1000)
+        return orig_ev(node)
+    fp.ev = ev
+    try:
+        kind, val = fp.ev(rets[0].value)
+    except ValueError as exc:
+        return {'state': 'skipped', 'why': f'subtraction kernel outside the float-expression subset: {exc}'}
+    res = z3.ToReal(val) if kind == 'int' else val
+    bound = 2 ** 40
+    sol = z3.Solver()
+    sol.set('timeout', 300000)
+    sol.add(n >= -bound, n <= bound)
+    u = z3.RealVal(1) / z3.RealVal(2 ** 53)
+    for d in fp.deltas:
+        sol.add(d >= -u, d <= u)
+    sol.add(res != z3.ToReal(n))
+    r = str(sol.check())
+    if r == 'unsat':
+        return {'state': 'unsat', 'lemma': f'datetime subtraction returns exactly n for every integral difference |n| <= 2^40 ms under the '
+                                           f'relative-error rounding model ({len(fp.deltas)} rounded operations found in the AST)'}
+    if r != 'sat':
+        return {'state': 'inconclusive', 'why': r}
+    nv = sol.model().eval(n, True).as_long()
+    ok, info = replay_subtract(nv)
+    if ok:
+        return {'state': 'inconclusive', 'why': f'rounding-model candidate n={nv} (and 6000 neighbours) subtracts exactly on the real evaluator'}
+    return {'state': 'violation', 'detail': info, 'replay': {'module': 'vf.props.c16', 'fn': 'replay_subtract', 'kwargs': {'n': nv}}}
